@@ -157,12 +157,38 @@ def rejected_or_agree_cases():
     loop3 = A.stanza("(module (_)* @stmts) @_m ", [A.mut(v("lst"), A.lst(i(1))), A.forin("s", c("stmts"), [A.forin("e", v("lst"), [A.node(v("k"))]),
                                                                                                 A.assign(v("lst"), A.lst(A.svar(v("s"), "flag")))])])
     cases = []
-    for k, st in enumerate([[flags, loop1], [loop1, flags], [names, loop2], [loop2, names], [flags, loop3]]):
+    # (definitions first: in this order strict mode succeeds, so lazy mode must, too)
+    for k, st in enumerate([[flags, loop1], [names, loop2], [flags, loop3]]):
         for src in (2, 5, 7):
             cases += A.both_modes("c02r-%d-%d" % (k, src), A.file(st), src)
-    # (one file that does load, so that the batch is never empty for the trace validation)
-    cases += A.both_modes("c02r-ok", A.file([A.stanza("(module) @_m ", [A.node(v("n"))])]), 1)
     return cases
+
+
+def judge_rejected(V):
+    """runs the files of rejected_or_agree_cases directly (no machine: the specification rejects them); if the loader accepts one,
+    the two modes must still agree on success"""
+    d = C.workdir("c02_rejected")
+    raw, out = os.path.join(d, "raw.ndjson"), os.path.join(d, "out.ndjson")
+    C.write_ndjson(raw, [X.strip_nulls(c) for c in rejected_or_agree_cases()])
+    st, _ = C.run_cases(raw, out)
+    if st != "ok":
+        V.violation("c02r-crash", {"property": PROP, "detail": "executing files that break the locality rules made the process " + st}, {"observed": "abort"})
+        return 0
+    done = {c["id"]: c for c in C.read_ndjson(out)}
+    n = 0
+    for cid, c in sorted(done.items()):
+        if not cid.endswith("-strict"):
+            continue
+        l = done.get(cid[:-7] + "-lazy")
+        os_, ol = c.get("outcome", {}), (l or {}).get("outcome", {})
+        if os_.get("status") in (None, "load_err") or ol.get("status") in (None, "load_err"):
+            continue
+        n += 1
+        if os_["status"] == "ok" and ol["status"] != "ok":
+            V.violation(cid[:-7] + "-pair", {"property": PROP, "dsl_text": c.get("text"), "source": c.get("src"), "strict": os_, "lazy": ol,
+                                             "detail": "the file was accepted; strict execution succeeds, lazy execution %s: %s" % (ol["status"], ol.get("err", {}).get("display", ol.get("msg", ""))[:300])},
+                        {"observed": ol["status"], "expected": "ok", "kind": ol.get("err", {}).get("kind", "")})
+    return n
 
 
 def shorthand_cases(tier):
@@ -197,7 +223,7 @@ def run(tier):
     run.add_cases("c02_scoped", c04.shaped_cases(tier, "c02c"))
     run.add_cases("c02_shorthands", shorthand_cases(tier))
     run.add_cases("c02_unused", unused_cases(tier))
-    run.add_cases("c02_rejected", rejected_or_agree_cases())
+    accepted_rejects = judge_rejected(run.V)
     # design level: TLC enumerates programs itself and checks StrictLazyAgree (with isomorphism decided inside TLA+) on the machines;
     # the enumerated programs are then replayed into the library (spec -> code)
     import mcexec
